@@ -6,6 +6,7 @@ import ZV.Model.C07
     output: `<error kind>|c=<chains>|e=<chains>|n=<chains>`; a chain = uids joined by `.`, chains sorted and joined by `,`.
     `c07 eku <chain> <keyUsages>`: `checkChainForKeyUsage` alone; chain = `;`-separated `eku:unknownEku` (or `_` = empty chain),
     usages in the harness numbering with `-1` = the sentinel value; output `true` / `false`.
+    `c07 vsd <same arguments as the Verify line>`: `ValidateWithStupidDetail`; output `<error kind>|chains=<current chains>|trusted=<0/1>|berr=<kind of BrowserError>|matches=<0/1>|domain=<hex>`.
     `c07 isvalid <type 0 leaf|1 intermediate|2 root> <bc> <ca> <maxPathLen> <len(currentChain)>`: `isValid` alone; output = error kind. -/
 namespace ZV.C07
 
@@ -81,6 +82,19 @@ def parseEkuChain (s : String) : Option Chain :=
       | _, _ => none
     | _ => none)
 
+def parseQuery (certs sig leaf roots inters now kus dns san ldns lcn : String) : Option (Env × Cert × C09.Cert × Opts) :=
+  match parseCerts certs, leaf.toNat?, parseNats roots, parseNats inters, parseInt now, parseInts kus,
+        ofHex dns, parseHexList ldns, ofHex lcn with
+  | some u, some li, some ri, some ii, some now, some kus, some dns, some ldns, some lcn =>
+    let m := (sig.splitOn ";").map (fun (row : String) => row.toList.map (· == '1'))
+    match u[li]?, pick u ri, pick u ii with
+    | some c, some rs, some is =>
+      let env : Env := { roots := rs, inters := is, sigOK := sigOf m }
+      let hc : C09.Cert := { extOids := if san == "1" then [C09.oidSAN] else [], dnsNames := ldns, ipAddresses := [], commonName := lcn }
+      some (env, c, hc, { now := now, keyUsages := kus, dnsName := dns })
+    | _, _, _ => none
+  | _, _, _, _, _, _, _, _, _ => none
+
 def handle (args : List String) : String :=
   match args with
   | ["isvalid", ty, bc, ca, mpl, n] =>
@@ -94,21 +108,24 @@ def handle (args : List String) : String :=
     match parseEkuChain chain, parseInts kus with
     | some ch, some us => if checkChainForKeyUsage ch us then "true" else "false"
     | _, _ => "bad-op"
+  | ["vsd", _, certs, sig, leaf, roots, inters, now, kus, dns, san, ldns, lcn] =>
+    match parseQuery certs sig leaf roots inters now kus dns san ldns lcn with
+    | some (env, c, hc, opts) =>
+      match validateWithStupidDetail env c hc opts with
+      | .ok o =>
+        let b := fun (x : Bool) => if x then "1" else "0"
+        s!"{showErr o.err}|chains={showChains o.chains}|trusted={b o.validation.browserTrusted}|berr={showErr o.validation.browserError}|matches={b o.validation.matchesDomain}|domain={toHex o.validation.domain}"
+      | .err => "err"
+      | .panic => "panic"
+    | none => "bad-op"
   | [_, certs, sig, leaf, roots, inters, now, kus, dns, san, ldns, lcn] =>
-    match parseCerts certs, leaf.toNat?, parseNats roots, parseNats inters, parseInt now, parseInts kus,
-          ofHex dns, parseHexList ldns, ofHex lcn with
-    | some u, some li, some ri, some ii, some now, some kus, some dns, some ldns, some lcn =>
-      let m := (sig.splitOn ";").map (fun (row : String) => row.toList.map (· == '1'))
-      match u[li]?, pick u ri, pick u ii with
-      | some c, some rs, some is =>
-        let env : Env := { roots := rs, inters := is, sigOK := sigOf m }
-        let hc : C09.Cert := { extOids := if san == "1" then [C09.oidSAN] else [], dnsNames := ldns, ipAddresses := [], commonName := lcn }
-        match verify env c hc { now := now, keyUsages := kus, dnsName := dns } with
-        | .ok o => s!"{showErr o.err}|c={showChains o.current}|e={showChains o.expired}|n={showChains o.never}"
-        | .err => "err"
-        | .panic => "panic"
-      | _, _, _ => "bad-op"
-    | _, _, _, _, _, _, _, _, _ => "bad-op"
+    match parseQuery certs sig leaf roots inters now kus dns san ldns lcn with
+    | some (env, c, hc, opts) =>
+      match verify env c hc opts with
+      | .ok o => s!"{showErr o.err}|c={showChains o.current}|e={showChains o.expired}|n={showChains o.never}"
+      | .err => "err"
+      | .panic => "panic"
+    | none => "bad-op"
   | _ => "bad-op"
 
 end ZV.C07
